@@ -83,9 +83,25 @@ func (s *script) doTo(e *jsontext.Encoder, name, recv string) error {
 	case "reset":
 		e.Reset(new(nopWriter))
 		return nil
+	case "nestreset":
+		// a nested call on the same encoder, for a value with a MarshalJSONTo of its own, comes and
+		// goes; after it the outer call is still in progress
+		e.WriteToken(jsontext.BeginArray)
+		jsonv2.MarshalEncode(e, nestedTo{})
+		e.WriteToken(jsontext.EndArray)
+		e.Reset(new(nopWriter))
+		return nil
 	}
 	return errUser
 }
+
+type nestedTo struct{}
+
+func (nestedTo) MarshalJSONTo(e *jsontext.Encoder) error { return e.WriteToken(jsontext.Int(7)) }
+
+type nestedFrom struct{}
+
+func (*nestedFrom) UnmarshalJSONFrom(d *jsontext.Decoder) error { return d.SkipValue() }
 
 type nopWriter struct{}
 
@@ -113,6 +129,10 @@ func (s *script) undoFrom(d *jsontext.Decoder, v *int, name string) error {
 		d.SkipValue()
 		return errors.ErrUnsupported
 	case "reset":
+		d.Reset(new(emptyReader))
+		return nil
+	case "nestreset":
+		jsonv2.UnmarshalDecode(d, new(nestedFrom))
 		d.Reset(new(emptyReader))
 		return nil
 	}
